@@ -83,6 +83,17 @@ def fixed_scenarios():
     S.append(("cb-raises-first", {"emit": {0: [1, 2], 1: [4]}, "callbacks": {0: [[("raise",)]]},
                                   "threads": [[("schedule", 0, 0, "n"), ("schedule", 1, 0, "n"), ("schedule", 1, 1, "n"), ("start",),
                                                ("stop",), ("join",)]]}))
+    # an equal watch scheduled again while an entry of the old one may still be queued (entries compare by value)
+    S.append(("reschedule-equal", {"emit": {0: [1]}, "threads": [[("schedule", 0, 0, "n"), ("start",), ("unschedule", 0),
+                                                                   ("schedule", 0, 0, "n"), ("stop",), ("join",)]]}))
+    S.append(("reschedule-equal-2", {"emit": {0: [1, 1]}, "threads": [[("schedule", 0, 0, "n"), ("start",)],
+                                                                     [("unschedule", 0), ("schedule", 1, 0, "n"), ("stop",), ("join",)]]}))
+    # a handler unschedules its watch and schedules an equal one again while entries of the old watch are still queued
+    S.append(("cb-reschedule-equal", {"emit": {0: [1, 2, 1]}, "callbacks": {0: [[("unschedule", 0), ("schedule", 0, 0, "n")]]},
+                                      "threads": [[("schedule", 0, 0, "n"), ("start",)]]}))
+    # equal watches scheduled from two threads at once: they must share one emitter
+    S.append(("concurrent-schedule-equal", {"emit": {0: [1]}, "threads": [[("start",), ("schedule", 0, 0, "n")],
+                                                                          [("schedule", 1, 0, "n")]]}))
     S.append(("unschedule-unknown", {"threads": [[("unschedule", 0), ("remove", 0, 0), ("add", 0, 0), ("stop",)]]}))
     return S
 
@@ -282,6 +293,15 @@ def judge_c06(scn, result):
     return None
 
 
+def judge_c13(scn, result):
+    """equal watches share one emitter: the observer never reports two emitters for one watch"""
+    fe = result.get("final_emitters", [])
+    dup = sorted({w for w in fe if fe.count(w) > 1})
+    if dup:
+        return f"the observer reports {len(fe)} emitters {fe}: more than one for watch(es) {dup}"
+    return None
+
+
 def judge_c07(scn, result):
     """no sequence of API calls makes a thread of the library terminate with an unhandled error"""
     if result["uncaught"]:
@@ -319,7 +339,7 @@ def run(res, tier, lean, prop="C04", proof_breaks=(), build_log=""):
     res.notes["runs_with_one_dispatcher"] = sum(1 for o in outs_full if "oneDispatcher=1" in o)
     res.notes["runs_replayed"] = len(outs_full)
     bad, judged = [], []
-    judges = {"C04": [judge_c04, judge_c05, judge_c04_gap], "C05": [judge_c05], "C06": [judge_c06], "C07": [judge_c07]}[prop]
+    judges = {"C04": [judge_c04, judge_c05, judge_c04_gap], "C05": [judge_c05], "C06": [judge_c06], "C07": [judge_c07], "C13": [judge_c13]}[prop]
     for line, o, i, (name, scn, result) in zip(lines, outs, impl, meta):
         res.count()
         if any(h.startswith("call:") for h in result["hist"]):
